@@ -270,7 +270,8 @@ class R(object):
             self.add("DATA")
             for i, it in enumerate(s[1]):
                 if i:
-                    self.add(",", "none")
+                    # blanks before the comma are content after an unquoted item, layout after the other kinds
+                    self.add(",", "none" if s[1][i - 1][0] == "u" else "soft")
                 if it[0] == "q":
                     self.add('"%s"' % it[1], "soft")
                 elif it[0] == "u":
